@@ -11,7 +11,9 @@ CONSTANTS MaxLimit,    \* `retries' ranges over 1..MaxLimit
           Outcomes,    \* outcome classes an attempt can have
           Variant      \* "code" | "RetryPermanent" | "OneMore" | "IgnoreCancel" | "SuccessAfterFail" | "DropUsage"
 
-Transient == {"http500", "http502", "http503", "http504", "http507", "refused", "attemptTimeout", "eof", "tokenRetryable"}
+\* "eof": the reply is cut short; "closed": the connection ends before any reply byte - what a killed or crashed worker
+\* process leaves behind on its connections
+Transient == {"http500", "http502", "http503", "http504", "http507", "refused", "attemptTimeout", "eof", "closed", "tokenRetryable"}
 Permanent == {"usage", "tokenFatal", "malformed", "forbidden", "http400"}
 
 VARIABLES limit,      \* configured number of attempts
